@@ -673,6 +673,8 @@ def check_caret(chk, pm):
 
 
 def run(chk):
+    from .c01 import _share_layout
+    _share_layout(chk)
     chk.rule('C06.P', 'position fixing: inner syntax errors are re-raised with full line, line number and column', floor=20)
     chk.rule('C06.C', 'column arithmetic agrees with the regex structure')
     chk.rule('C06.N', 'line numbers: start + first physical index of the reported logical line', floor=25)
